@@ -153,8 +153,10 @@ def c17_quick_models():
     out.append(("variants:obj", single(ms, "Box", "arc", "obj", [obj("Alpha", "Mut", "none"), obj("Alpha", "Ref", "arc")])))
     out.append(("variants:group", single(ms, "Box", "arc", "gmand", [grp("Bundle", "Mut", "none"), grp("Bundle", "Box", "none")])))
     msc = [meth("alpha_get", "ref", ["u64"], "u64"), meth("alpha_dup", "ref", [], "self")]
-    out.append(("variants:obj:self", single(msc, "Box", "arc", "obj", [obj("Alpha", "Mut", "none")])))
-    out.append(("variants:group:self", single(msc, "Box", "arc", "gmand", [grp("Bundle", "Mut", "arc")])))
+    # second variants of a Self-returning entry are Box containers with another context: an object over a borrowed
+    # container cannot implement a Self-returning method at all (the Rust side cannot build that vtable)
+    out.append(("variants:obj:self", single(msc, "Box", "arc", "obj", [obj("Alpha", "Box", "none")])))
+    out.append(("variants:group:self", single(msc, "Box", "arc", "gmand", [grp("Bundle", "Box", "none")])))
     # F5 number of traits / groups, group composition
     tr = [trait(n, [meth(n.lower() + "_get", "ref", ["u64"], "u64"), meth(n.lower() + "_put", "mut", ["s3"], "void")]) for n in TRAIT_NAMES]
     for nt in (1, 2, 3, 4):
